@@ -462,7 +462,27 @@ func reportSignErr(t *rapid.T, kind string, step string, err error, panicked boo
 func TestWalletSignECDSA(t *testing.T) {
 	rapid.Check(t, func(t *rapid.T) {
 		cd := &caseDesc{}
-		nkeys := rapid.IntRange(1, 8).Draw(t, "nkeys")
+		// --- shape of the transaction's programs first: it decides how many keys are needed.
+		// Multisig domain = what the wallet accepts and can sign: contract.CreateMultiSigRedeemScript
+		// takes 1 <= m <= n <= 24, but only n <= 16 fits the one-byte PUSH1..PUSH16 form that the
+		// wallet's own ParseMultisigScript (GetSigners) and the node understand; n >= 2 because of
+		// crypto.MinMultiSignCodeLength.  n in 17..24 is generated too and only judged if the wallet
+		// manages to sign.
+		shape := rapid.SampledFrom([]string{"standard", "multisig", "multisig", "multisig-byM", "mixed"}).Draw(t, "shape")
+		wantN, wantStd := 0, 0
+		switch shape {
+		case "standard":
+			wantStd = rapid.IntRange(1, 3).Draw(t, "nstd")
+		case "mixed":
+			wantStd = rapid.IntRange(1, 2).Draw(t, "nstd")
+		}
+		if shape != "standard" {
+			wantN = rapid.SampledFrom([]int{2, 2, 3, 3, 4, 5, 6, 15, 16, 16, 16, 17, 24, 0, 0, 0}).Draw(t, "nBias")
+			if wantN == 0 {
+				wantN = rapid.IntRange(2, 16).Draw(t, "nAny")
+			}
+		}
+		nkeys := wantStd + wantN + rapid.IntRange(0, 2).Draw(t, "nextra")
 		var ks []*key
 		seen := map[string]bool{}
 		for len(ks) < nkeys {
@@ -484,16 +504,6 @@ func TestWalletSignECDSA(t *testing.T) {
 			}
 		}
 
-		// --- shape of the transaction's programs
-		shape := rapid.SampledFrom([]string{"standard", "multisig", "multisig", "multisig-byM", "mixed"}).Draw(t, "shape")
-		// a multisig script needs n >= 2 keys (crypto.MinMultiSignCodeLength: the wallet's own
-		// GetScriptType and the node's ParseMultisigScript both refuse shorter scripts)
-		if nkeys < 3 && shape == "mixed" {
-			shape = "multisig"
-		}
-		if nkeys < 2 {
-			shape = "standard"
-		}
 		keystore := rapid.IntRange(0, 2).Draw(t, "keystore") == 0
 		cd.API = "functions+map"
 		if keystore {
@@ -505,17 +515,15 @@ func TestWalletSignECDSA(t *testing.T) {
 		rest := perm
 		switch shape {
 		case "standard":
-			ns := rapid.IntRange(1, min(3, len(rest))).Draw(t, "nstd")
-			std, rest = rest[:ns], rest[ns:]
+			std, rest = rest[:wantStd], rest[wantStd:]
 		case "mixed":
-			ns := rapid.IntRange(1, min(2, len(rest)-2)).Draw(t, "nstd")
-			std, rest = rest[:ns], rest[ns:]
+			std, rest = rest[:wantStd], rest[wantStd:]
 		}
 		if shape != "standard" {
-			n := rapid.IntRange(2, min(6, len(rest))).Draw(t, "n")
-			m := rapid.IntRange(1, n).Draw(t, "m")
-			if m == n && rapid.Bool().Draw(t, "preferMltN") {
-				m = rapid.IntRange(1, n-1).Draw(t, "m2")
+			n := wantN
+			m := rapid.SampledFrom([]int{1, 2, n - 1, n, 0, 0}).Draw(t, "mBias")
+			if m < 1 || m > n {
+				m = rapid.IntRange(1, n).Draw(t, "mAny")
 			}
 			var pubs []*crypto.PublicKey
 			for _, k := range rest[:n] {
@@ -530,17 +538,32 @@ func TestWalletSignECDSA(t *testing.T) {
 			}
 			multi = &multiProg{m: m, code: acc.RedeemScript, hash: acc.ProgramHash}
 			// script order = order of the public keys inside the redeem script
-			for i := 0; i < n; i++ {
-				pk := acc.RedeemScript[2+34*i : 2+34*i+33]
-				for _, k := range rest[:n] {
-					enc, _ := k.acc.PublicKey.EncodePoint(true)
-					if bytes.Equal(enc, pk) {
-						multi.signers = append(multi.signers, k)
-					}
+			pos := map[*key]int{}
+			for _, k := range rest[:n] {
+				enc, _ := k.acc.PublicKey.EncodePoint(true)
+				i := bytes.Index(acc.RedeemScript, append([]byte{33}, enc...))
+				if i < 0 {
+					t.Fatalf("harness: could not map redeem script keys")
 				}
+				pos[k] = i
+				multi.signers = append(multi.signers, k)
 			}
-			if len(multi.signers) != n {
-				t.Fatalf("harness: could not map redeem script keys")
+			sort.Slice(multi.signers, func(i, j int) bool { return pos[multi.signers[i]] < pos[multi.signers[j]] })
+			if n > 16 {
+				// the wallet built the account; can it sign for it at all?
+				all := map[common.Uint160]*account.Account{}
+				for _, k := range multi.signers {
+					all[k.acc.ProgramHash.ToCodeHash()] = k.acc
+				}
+				ptx, _ := genTx(t)
+				prog := &pg.Program{Code: acc.RedeemScript}
+				ptx.SetPrograms([]*pg.Program{prog})
+				var serr error
+				pp, _, _ := vk.Catch(func() { _, serr = account.SignMultiSignTransaction(ptx, prog, all) })
+				if pp || serr != nil {
+					vk.Case("sign/"+shape+"/n>16: wallet creates the account but refuses to sign (not judged)", false, nil, nil)
+					return
+				}
 			}
 			rest = rest[n:]
 			cd.M, cd.N = m, n
@@ -723,6 +746,9 @@ func TestWalletSignECDSA(t *testing.T) {
 		nt := len(programs) >= 2 || (multi != nil && multi.m < len(multi.signers))
 		cls := fmt.Sprintf("sign/%s/%s", kind, cd.API)
 		if multi != nil {
+			if len(multi.signers) >= 15 {
+				cls += fmt.Sprintf("/n=%d", len(multi.signers))
+			}
 			switch {
 			case multi.m == len(multi.signers):
 				cls += "/m=n"
@@ -831,4 +857,3 @@ func TestWalletSignSchnorr(t *testing.T) {
 	})
 }
 
-var _ = sort.Ints
